@@ -1,4 +1,5 @@
 import Bw.Pipeline
+import Bw.Lemmas.BSearch
 /-! # C02 — diff mode validates exactly the touched blocks, with full-scan verdicts -/
 namespace Bw.Props.C02
 open Bw Bw.Blocks Bw.Diff Bw.Val Bw.Pipe
@@ -66,7 +67,7 @@ theorem tag_edit_single (s e : Pos) (line : Nat) (r : Nat × Nat) (hs : s.line =
   have h1 : ¬ s.line < s.line := by omega
   have h2 : ¬ s.line > e.line := by omega
   have h3 : ¬ s.line < e.line := by omega
-  simp only [hit, h1, h2, h3, if_false, if_true, bsearch_single]
+  simp only [hit, h1, h2, h3, if_false, if_true, bsearch_single, rangeCmp, touches]
   by_cases ha : r.2 > s.col - 1 <;> by_cases hb : r.1 ≤ e.col - 1 <;> simp [ha, hb] <;> split <;> simp
 
 /-- attribute edit: a range strictly inside the tag selects the block … -/
@@ -85,7 +86,7 @@ theorem attr_edit_not_content (b : Block) (line : Nat) (r : Nat × Nat)
   have h1 : ¬ b.cPosStart.line < b.cPosStart.line := by omega
   have h2 : ¬ b.cPosStart.line > b.cPosEnd.line := by omega
   have h3 : ¬ r.2 > b.cPosStart.col - 1 := by omega
-  simp [hit, h1, h2, hlt, bsearch_single, h3]
+  simp [hit, h1, h2, hlt, bsearch_single, h3, rangeCmp, touches]
   split <;> simp
 
 /-- an edit confined to the end-tag comment's line, at or after the column where that comment
@@ -99,7 +100,7 @@ theorem end_tag_line_edit_not_content (b : Block) (line : Nat) (r : Nat × Nat)
   have h3 : ¬ b.cPosEnd.line = b.cPosStart.line := by omega
   have h4 : ¬ b.cPosEnd.line < b.cPosEnd.line := by omega
   have h5 : ¬ r.1 < b.cPosEnd.col - 1 := by omega
-  simp [hit, h1, h2, h3, h4, bsearch_single, h5]
+  simp [hit, h1, h2, h3, h4, bsearch_single, h5, rangeCmp, touches]
   split <;> simp
 
 /-- soundness of the range search: a hit is witnessed by an actual changed range of the line -/
@@ -115,6 +116,89 @@ theorem bsearch_sound {α} (l : List α) (f : α → Ordering) (h : bsearchFound
     | some x =>
       rw [hx] at h
       exact ⟨x, List.mem_of_getElem? hx, by simpa using h⟩
+
+/-- the changed ranges of a line as `line_diff` leaves them: non-inverted, in order, not overlapping -/
+def SortedRanges (rs : List (Nat × Nat)) : Prop :=
+  (∀ r ∈ rs, r.1 ≤ r.2) ∧ rs.Pairwise (fun a b => a.2 ≤ b.1)
+
+/-- over such ranges the comparator handed to `binary_search_by` is monotone: ranges left of the block's columns
+    (`Less`), touching ones (`Equal`), ranges right of them (`Greater`) -/
+theorem rangeCmp_mono (incl : Bool) (sc : Nat) (ec : Option Nat) (rs : List (Nat × Nat)) (h : SortedRanges rs) :
+    Mono (rangeCmp incl sc ec) rs := by
+  intro i j a b hij ha hb
+  obtain ⟨hi, rfl⟩ := List.getElem?_eq_some_iff.1 ha
+  obtain ⟨hj, rfl⟩ := List.getElem?_eq_some_iff.1 hb
+  have hab : (rs[i]).2 ≤ (rs[j]).1 := (List.pairwise_iff_getElem.1 h.2) i j hi hj hij
+  have ha' := h.1 rs[i] (List.getElem_mem hi)
+  have hb' := h.1 rs[j] (List.getElem_mem hj)
+  constructor
+  · intro hlt
+    have h2 : (rs[j]).2 ≤ sc := by
+      unfold rangeCmp at hlt
+      by_cases ht : touches incl sc ec rs[j] = true
+      · simp [ht] at hlt
+      · by_cases hl : (rs[j]).2 ≤ sc
+        · exact hl
+        · simp [ht, hl] at hlt
+    have h1 : (rs[i]).2 ≤ sc := by omega
+    have hnt : touches incl sc ec rs[i] = false := by
+      simp only [touches, Bool.and_eq_false_iff, decide_eq_false_iff_not]
+      exact Or.inl (by omega)
+    simp [rangeCmp, hnt, h1]
+  · intro hgt
+    unfold rangeCmp at hgt
+    by_cases ht : touches incl sc ec rs[i] = true
+    · simp [ht] at hgt
+    · by_cases hl : (rs[i]).2 ≤ sc
+      · simp [ht, hl] at hgt
+      · -- rs[i] lies right of the block's columns: its start is past `ec`; so is every later range
+        have hsc : (rs[j]).2 > sc := by omega
+        have hnt : touches incl sc ec rs[j] = false := by
+          simp only [touches, Bool.not_eq_true, Bool.and_eq_false_iff, decide_eq_false_iff_not] at ht ⊢
+          rcases ht with ht | ht
+          · exact absurd (by omega : (rs[i]).2 > sc) ht
+          · refine Or.inr ?_
+            cases ec with
+            | none => simp at ht
+            | some x =>
+              cases incl <;> simp only [Bool.false_eq_true, if_false, if_true, decide_eq_false_iff_not] at ht ⊢ <;> omega
+        have hl' : ¬ (rs[j]).2 ≤ sc := by omega
+        simp [rangeCmp, hnt, hl']
+
+/-- **the inner range search is exact**: on a line with (sorted, disjoint) changed ranges the block is hit iff the
+    change is on one of its lines and some changed range touches the block's columns on that line -/
+theorem hit_exact (incl : Bool) (s e : Pos) (c : LC) (rs : List (Nat × Nat)) (hr : c.ranges = some rs)
+    (hs : SortedRanges rs) :
+    hit incl s e c = true ↔
+      s.line ≤ c.line ∧ c.line ≤ e.line ∧
+      ∃ r ∈ rs, touches incl (if c.line = s.line then s.col - 1 else 0)
+        (if c.line < e.line then none else some (e.col - 1)) r = true := by
+  unfold hit
+  by_cases h1 : c.line < s.line
+  · simp [h1]; omega
+  · by_cases h2 : c.line > e.line
+    · simp [h1, h2]; omega
+    · simp only [h1, h2, if_false, hr]
+      have e1 : s.line ≤ c.line := by omega
+      have e2 : c.line ≤ e.line := by omega
+      simp only [e1, e2, true_and]
+      constructor
+      · intro h
+        obtain ⟨x, hx, hxe⟩ := bsearch_sound rs _ h
+        refine ⟨x, hx, ?_⟩
+        unfold rangeCmp at hxe
+        by_cases ht : touches incl (if c.line = s.line then s.col - 1 else 0) (if c.line < e.line then none else some (e.col - 1)) x = true
+        · exact ht
+        · simp only [ht, Bool.false_eq_true, if_false] at hxe
+          by_cases hl : x.2 ≤ (if c.line = s.line then s.col - 1 else 0)
+          · simp [hl] at hxe
+          · simp [hl] at hxe
+      · rintro ⟨r, hrm, ht⟩
+        exact bsearch_complete rs _ (rangeCmp_mono incl _ _ rs hs) r hrm (by simp [rangeCmp, ht])
+
+example : SortedRanges [(0, 2), (3, 4), (5, 6)] := by
+  refine ⟨by decide, ?_⟩
+  simp [List.pairwise_cons]
 
 /-! ### rules are block-local -/
 
